@@ -106,7 +106,17 @@ def random_case(rng, tier):
     for action in schedule:
         if action['act'] == 'pause':
             action['msg'] = rng.choice([None, '', 'paused-by-env', 'p2'])
-    return {'program': program, 'schedule': schedule, 'opts': common.with_communicator(rng, {'final_play': True})}
+    case = {'program': program, 'schedule': schedule, 'opts': common.with_communicator(rng, {'final_play': True})}
+    if rng.random() < 0.12:
+        case['disturbed'] = True
+        extra = common.gen_schedule(rng, ['kill', 'fail', 'cancel_stepper', 'cancel_stepper', 'restep', 'pause', 'play'], 3, ticks, notify,
+                                    p_listener=0.0)
+        case['schedule'] = schedule + extra
+        for action in case['schedule']:
+            if 'on' in action:  # requests from between loop callbacks only (a pause from the 'played' notification re-pauses)
+                action.pop('on')
+                action['at'] = rng.randint(0, ticks + 1)
+    return case
 
 
 def shrink(case):
@@ -125,7 +135,43 @@ def shrink(case):
     yield from common.shrink_control(case)
 
 
+def _run_disturbed(case):
+    """Runs in which the process is also killed, failed or abandoned by whoever steps it: nothing is left of 'identical to
+    the uninterrupted run', but pause() and play() still never raise, whatever state that left the process in, and a play()
+    on a live process leaves it un-paused."""
+    result = Result()
+    engine = common.new_engine(case, record_hooks=False)
+    try:
+        if not engine.start():
+            raise RuntimeError(f'construction failed: {engine.construct_error!r}')
+        try:
+            engine.run_schedule()
+            for kind in ('play', 'pause', 'play'):
+                engine.extra_action({'act': kind}, where='epilogue')
+                engine.run_to_quiescence()
+        except TickLimit as exc:
+            result.violate('outcome_differs', 'runaway', f'the run does not come to rest: {exc}')
+        result.counters['disturbed_runs'] += 1
+        for record in engine.records:
+            kind = record.action['act']
+            if kind in ('pause', 'play') and record.raised is not None:
+                result.violate(f'{kind}_raises', f'{type(record.raised).__name__}@{record.context}',
+                               f'{kind}() raised {record.raised!r} in context {record.context} (the process had been '
+                               f'killed, failed or abandoned by its stepper before)')
+            if kind == 'play' and record.raised is None and record.pre_live and record.where == 'epilogue' \
+                    and (record.result is not True or record.post_paused):
+                result.violate('play_not_playing', record.context, f'play() returned {record.result!r}, paused afterwards='
+                                                                   f'{record.post_paused}')
+        common.finish_result(engine, result)
+        result.nontrivial = True
+    finally:
+        common.close_engine(engine)
+    return result
+
+
 def run(case):
+    if case.get('disturbed'):
+        return _run_disturbed(case)
     result = Result()
     try:
         reference = common.reference_run(case['program'], case.get('opts'))
